@@ -4,9 +4,9 @@ import (
 	"crypto/tls"
 	"fmt"
 	"os"
+	"reflect"
 	"sort"
 	"strings"
-	"sync"
 	"time"
 
 	exserver "github.com/cybergarage/go-redis/examples/go-redisd/server"
@@ -72,23 +72,8 @@ func newCluster(tape *sim.Tape, o *Outcome) *cluster {
 				// itself is therefore provided by the REAL mutex (a per-connection mutex, or no mutex at
 				// all, lets several tasks through), not by the scheduler.
 				free := func() bool { return !cl.execHeld }
-				switch mu := obj.(type) {
-				case *sync.Mutex:
-					free = func() bool {
-						if mu.TryLock() {
-							mu.Unlock()
-							return true
-						}
-						return false
-					}
-				case *sync.RWMutex:
-					free = func() bool {
-						if mu.TryLock() {
-							mu.Unlock()
-							return true
-						}
-						return false
-					}
+				if probe := lockProbe(obj); probe != nil {
+					free = probe
 				}
 				s.Park("?", "yield:exec.lock", obj, free)
 				cl.execHeld = true
@@ -116,6 +101,42 @@ func newCluster(tape *sim.Tape, o *Outcome) *cluster {
 		s.Park("?", "yield:"+point, nil, nil)
 	}
 	return cl
+}
+
+type tryLocker interface {
+	TryLock() bool
+	Unlock()
+}
+
+// lockProbe returns a function telling whether the lock behind obj is free right now: obj is a lock
+// (anything with TryLock/Unlock) or a pointer to a variable holding one, read anew at every probe.
+// nil = obj is not recognisable as a lock.
+func lockProbe(obj any) func() bool {
+	try := func(tl tryLocker) bool {
+		if tl.TryLock() {
+			tl.Unlock()
+			return true
+		}
+		return false
+	}
+	if tl, ok := obj.(tryLocker); ok {
+		return func() bool { return try(tl) }
+	}
+	rv := reflect.ValueOf(obj)
+	if rv.IsValid() && rv.Kind() == reflect.Pointer && !rv.IsNil() && (rv.Elem().Kind() == reflect.Pointer || rv.Elem().Kind() == reflect.Interface) {
+		if _, ok := rv.Elem().Interface().(tryLocker); ok || rv.Elem().IsNil() {
+			return func() bool {
+				if rv.Elem().IsNil() {
+					return true
+				}
+				if tl, ok := rv.Elem().Interface().(tryLocker); ok {
+					return try(tl)
+				}
+				return true
+			}
+		}
+	}
+	return nil
 }
 
 func taskNameFor(obj any) string {
@@ -255,6 +276,8 @@ type client struct {
 	Chunk    int
 	End      endPlan
 	NoDial   bool // dialing is driven by the check, not offered as an action
+	// DialAfter gates the dial action (nil = at once).
+	DialAfter func() bool
 	// S2CWindow > 0 bounds the bytes the server can have outstanding towards this client.
 	S2CWindow int
 	// NoRead: the client stops reading (with a finite window the server's writes block, then fail when it vanishes).
@@ -409,7 +432,7 @@ func (c *client) actions() []sim.Action {
 	var acts []sim.Action
 	switch c.State {
 	case clNew:
-		if !c.NoDial {
+		if !c.NoDial && (c.DialAfter == nil || c.DialAfter()) {
 			acts = append(acts, sim.Action{Key: c.Name + " dial", Do: c.dial})
 		}
 		return acts
